@@ -984,10 +984,14 @@ func (multi *MultiEpoch) processSlotTransactions(
 							txResp.Transaction = new(old_faithful_grpc.Transaction)
 							{
 								pos, ok := txn.GetPositionIndex()
-								if ok {
-									txResp.Index = ptrToUint64(uint64(pos))
-									txResp.Transaction.Index = ptrToUint64(uint64(pos))
+								if !ok {
+									// The position index is optional in the archive format; the ordered buffer
+									// below cannot place a transaction that has none.
+									errChan <- status.Errorf(codes.Internal, "Transaction in slot %d has no position index", txn.Slot)
+									return
 								}
+								txResp.Index = ptrToUint64(uint64(pos))
+								txResp.Transaction.Index = ptrToUint64(uint64(pos))
 								txResp.Transaction.Transaction, txResp.Transaction.Meta, err = getTransactionAndMetaFromNode(txn, epochHandler.GetDataFrameByCid)
 								if err != nil {
 									errChan <- status.Errorf(codes.Internal, "Failed to get transaction: %v", err)
